@@ -96,9 +96,14 @@ def hist_coverage(layer: Dict[str, Any]) -> Dict[str, Any]:
 DISPATCH_BUDGET = {"quick": 640, "thorough": 32000}
 
 
+LAYOUT_BUDGET = {"quick": 320, "thorough": 16000}
+TIMED_REQUEST_DIFFS = r"admitted|cancelled|requests present"
+
+
 def control_check(prop: str, tier: str, seed: int, *, mon_props: Optional[List[str]] = None,
                   targets: Optional[List[str]] = None, assumptions: Optional[List[str]] = None,
-                  level: str = "proof", with_dispatcher: bool = False, with_contention: bool = False) -> int:
+                  level: str = "proof", with_dispatcher: bool = False, with_contention: bool = False,
+                  with_timed: bool = False, with_layout: bool = False) -> int:
     """the common shape: theorems about the control model + history correspondence + monitors"""
     v = fw.Verdict(prop, tier, seed, level)
     targets = targets or [f"Properties.{prop}"]
@@ -121,8 +126,21 @@ def control_check(prop: str, tier: str, seed: int, *, mon_props: Optional[List[s
         # the property's clause about the built-in dispatcher: the real Dispatcher on mixed states
         dl = layers.dispatch_layer(seed, DISPATCH_BUDGET[tier])
         corr_ok = use_simple_layer(v, prop, dl, "dispatch", mon_props or [prop]) and corr_ok
+    ll = None
+    if with_layout:
+        # the initial layout: generated input files through the real initialisation
+        ll = layers.layout_layer(seed, LAYOUT_BUDGET[tier])
+        corr_ok = use_simple_layer(v, prop, ll, "layout", mon_props or [prop]) and corr_ok
+    tl = None
+    if with_timed:
+        # the admission / cancellation path: real request files (sorted and not) through the real readers
+        tl = layers.timed_layer(seed, TIMED_BUDGET[tier])
+        corr_ok = use_simple_layer(v, prop, tl, "timed", mon_props or [prop], TIMED_REQUEST_DIFFS) and corr_ok
     if (not ps.ok or not corr_ok) and not v.violations:
         # a proof obligation or the correspondence broke: search harder for a failing input
+        if tl is not None:
+            big_t = layers.timed_layer(seed + 7919, TIMED_BUDGET[tier] * 6)
+            use_simple_layer(v, prop, big_t, "timed", mon_props or [prop], TIMED_REQUEST_DIFFS)
         big = layers.hist_layer(seed + 7919, n_hist * 6, steps)
         use_hist_layer(v, prop, big, mon_props or [prop])
         v.notes.append(f"escalated search: {big['records']} further records")
@@ -135,6 +153,21 @@ def control_check(prop: str, tier: str, seed: int, *, mon_props: Optional[List[s
         v.coverage["rule"] = v.coverage.get("rule", "") + (
             "; plus contention histories: (a) one public station with 1-2 plugs of one type and 4-7 vehicles (20% nearly empty) standing at it under a controller that keeps "
             "queues alive, (b) one base with room for everybody served by a one-plug station, 3-6 vehicles standing there, ChargeBase/ReserveBase heavy, a probe in 90% of the steps")
+    if ll is not None:
+        v.coverage["layouts_loaded"] = ll["cases"]
+        v.coverage["layout_rows"] = ll["rows"]
+        v.coverage["rule"] = v.coverage.get("rule", "") + (
+            "; initial layout: generated stations files (1-5 stations on 1-4 rows each in any order, a plug type listed more than once, counts 0..300 written as "
+            "ints or floats, now and then a plug type the catalogue lacks), bases files (with/without station, repeated ids, 0 stalls), vehicles on top of stations and bases, "
+            "optional fleets file, loaded by the real initialize(); stations compared with the Lean fold Layout.loadStations, Layout.viol (installed = listed, everything free) "
+            "and every state monitor evaluated on the loaded state")
+    if tl is not None:
+        v.coverage["timed_runs"] = tl["cases"]
+        v.coverage["timed_steps"] = tl["steps"]
+        v.coverage["rule"] = v.coverage.get("rule", "") + (
+            "; admission path: generated request files (a quarter of them not sorted by departure time, invalid rows, departures before the start and on step boundaries) "
+            "read by the real UpdateRequestsFromFile (lazy and eager) and CancelRequests with scripted pick-ups; every admitted request followed by the Lean ledger "
+            "monitor violResolved (admitted once, cancelled at most once, never both, present until resolved - neither vanishes nor comes back)")
     if dl is not None:
         v.coverage["dispatcher_runs"] = dl["cases"]
         v.coverage["assignment_problems"] = dl["steps"]
@@ -158,7 +191,7 @@ def register(prop: str):
 
 @register("C02")
 def check_C02(tier: str, seed: int) -> int:
-    return control_check("C02", tier, seed, with_contention=True)
+    return control_check("C02", tier, seed, with_contention=True, with_layout=True)
 
 
 @register("C07")
@@ -176,10 +209,14 @@ def check_C17(tier: str, seed: int) -> int:
     return control_check("C17", tier, seed, with_dispatcher=True)
 
 
-def use_simple_layer(v: fw.Verdict, prop: str, layer: Dict[str, Any], layer_name: str, mon_props: List[str]) -> bool:
-    """function-level layers: findings are {id, kind, text, record}"""
+def use_simple_layer(v: fw.Verdict, prop: str, layer: Dict[str, Any], layer_name: str, mon_props: List[str],
+                     diff_filter: Optional[str] = None) -> bool:
+    """function-level layers: findings are {id, kind, text, record}; `diff_filter`: only disagreements
+    about these outputs concern this property (the others belong to another property's check)"""
     corr_ok = True
     for f in layer["findings"]:
+        if f["kind"] == "diff" and diff_filter and not any(re.search(diff_filter, t) for t in f["text"]):
+            continue
         replay = {"layer": layer_name, "record_id": f["id"], "messages": f["text"], "record": f.get("record"),
                   "how_to_replay": f"./check {prop} --replay <this file> (re-runs the recorded case through the current /repo code and the model)"}
         if f["kind"] == "mon":
@@ -253,14 +290,19 @@ def check_C08(tier: str, seed: int) -> int:
     cov["distinct_nontrivial"] = len(cl["shapes"])
     cov["rule"] = ("function-level: random add / modify / remove sequences (5-40 ops, re-adds of existing ids, moves inside a search cell, across search cells and back, "
                    "missing ids, forbidden station/base moves) on vehicles, requests, stations and bases of a real SimulationState through simulation_state_ops, search resolution in {7,9,12}; "
-                   "all eight maps compared with the Lean Coll model after every operation and checked by the Lean predicate Index.ok; distinct_nontrivial = distinct "
-                   "(entity kind, operation, outcome) triples; plus the history layer (indexes compared and checked after every phase)")
+                   "all eight maps compared with the Lean Coll model after every operation and checked by the Lean predicate Index.ok; after every operation the read side is "
+                   "exercised too: SimulationState.at_geoid at every palette cell, H3Ops.get_entities_at_cell at every palette search cell and a neighbour, and two ring searches "
+                   "(H3Ops.nearest_entity with random origin, accepted set {one entity, all, random subset} and ring budget 0-3), compared with Hive.Lookup on the model state and judged by "
+                   "Lookup.viol (found at exactly its cell / its enclosing search cell / within the rings); distinct_nontrivial = distinct "
+                   "(entity kind, operation, outcome) triples and ring-search shapes; plus the history layer (indexes compared and checked after every phase)")
     cov["samples"] = [cl["sample"]] + cov.get("samples", [])
     cov["operation_sequences"] = cl["cases"]
     cov["operations"] = cl["ops"]
+    cov["lookups"] = cl["lookups"]
     v.coverage = cov
     v.assumptions = ["h3_to_parent is an arbitrary function in the theorems; the recorded parent table is used in the runs",
-                     "request arrivals during a run use fresh ids (re-adds are covered by the function-level theorem Hive.C08.ops)"]
+                     "request arrivals during a run use fresh ids (re-adds are covered by the function-level theorem Hive.C08.ops)",
+                     "h3.k_ring is not modelled: the ring search theorems hold for any rings, the runs use the rings the library produced"]
     return v.finish()
 
 
@@ -305,7 +347,7 @@ def check_C09(tier: str, seed: int) -> int:
 
 @register("C03")
 def check_C03(tier: str, seed: int) -> int:
-    return control_check("C03", tier, seed, assumptions=[
+    return control_check("C03", tier, seed, with_timed=True, assumptions=[
         "request ids are unique in the input and never reused",
         "the whole-stream conservation law is enforced by the Lean ledger automaton (Hive.Ledger) on implementation traces; the Lean theorems are the state-level lemmas listed in Properties/C03.lean (partial: no theorem over unbounded event streams yet)"])
 
